@@ -1,13 +1,20 @@
 import MptModel.Impl.Linepart
+import MptModel.Impl.LinepartArray
 import MptModel.Impl.Dyadic
 import Driver.Util
 namespace Driver.Linepart
 open Mpt Mpt.Visible Mpt.Linepart
 
-/-- state: current range (`none` = NULL pointer) and data -/
+/-- state: current range (`none` = NULL pointer) and data; for the C++ layer (`xl` ops) a range and a data
+    set per dimension, the part array and the dimensions applied so far -/
 structure St where
   range : Option Range := none
   data : List Rat := []
+  xrange : List (Option Range) := [none, none, none]
+  xdata : List (List Rat) := [[], [], []]
+  xarr : List Part := []
+  xdims : List Nat := []
+  xlen : Nat := 0
   deriving Inhabited
 
 def fmtPart (p : Part) : String := s!"{p.raw}:{p.usr}:{p.cut}:{p.trim}"
@@ -66,7 +73,83 @@ def codeAlts (f : Rat) : List Int :=
 def codeR (c : Int) : String :=
   if c < 0 then s!"code={c} real=-" else s!"code={c} real={Dyadic.text (real c)}"
 
+/-- spec for the C++ layer: the parts consume `n` points; a point visible in every applied dimension is
+    drawn by exactly one part; the interior of every drawn portion is visible in every applied dimension -/
+def visAll (s : St) (i : Nat) : Bool :=
+  s.xdims.all fun d =>
+    match s.xrange.getD d none, (s.xdata.getD d [])[i]? with
+    | some r, some x => r.has x
+    | none, some _ => true
+    | _, none => false
+
+def interiorAll (s : St) : List Part → Nat → Bool
+  | [], _ => true
+  | p :: ps, start =>
+    ((List.range p.usr).all fun k => if 0 < k ∧ k + 1 < p.usr then visAll s (start + k) else true)
+    && interiorAll s ps (start + p.raw)
+
+def validMulti (s : St) (ps : List Part) : Bool :=
+  decide (sumRaw ps = s.xlen)
+  && (List.range s.xlen).all (fun i => if visAll s i then drawnCount ps 0 i == 1 else true)
+  && interiorAll s ps 0
+
+def xdump (s : St) (verdict : String) : String :=
+  let ps := s.xarr
+  let r := s!"{verdict} n={ps.length} recs={fmtParts ps}"
+  let c := s!"raw={lengthRaw ps} usr={lengthUser ps}"
+  let judged := s.xlen * (ps.length + 1) ≤ 2000000
+  let ok := !judged || validMulti s ps
+  s!"R {r} | C {c} | I len={s.xlen} | S " ++ (if ok then s!"{r} ; {c}" else "!invalid ; !invalid")
+
+def setAt {α} (l : List α) (i : Nat) (v : α) : List α := l.set i v
+
+def xstep (s : St) (w : List String) : St × String :=
+  match w with
+  | ["xl", "new"] => ({ s with xrange := [none, none, none], xdata := [[], [], []], xarr := [], xdims := [], xlen := 0 },
+      "R ok | C - | I -")
+  | ["xl", "range", d, "null"] =>
+    match Dyadic.parseNat d with
+    | some k => if k < 3 then ({ s with xrange := setAt s.xrange k none }, "R ok | C - | I -") else (s, "bad-op")
+    | none => (s, "bad-op")
+  | ["xl", "range", d, a, b] =>
+    match Dyadic.parseNat d, Dyadic.parse a, Dyadic.parse b with
+    | some k, some mn, some mx =>
+      if k < 3 then ({ s with xrange := setAt s.xrange k (some ⟨mn, mx⟩) }, "R ok | C - | I -") else (s, "bad-op")
+    | _, _, _ => (s, "bad-op")
+  | ["xl", "data", d, items] =>
+    match Dyadic.parseNat d, (if items = "-" then some [] else parseItems (items.splitOn ",")) with
+    | some k, some xs =>
+      if k < 3 then ({ s with xdata := setAt s.xdata k xs }, s!"R ok | C - | I len={xs.length}") else (s, "bad-op")
+    | _, _ => (s, "bad-op")
+  | ["xl", "set", n] =>
+    match Dyadic.parseNat n with
+    | some k =>
+      if k > 400000 then (s, "bad-op") else
+      let s1 := { s with xarr := arraySet k, xdims := [], xlen := k }
+      (s1, xdump s1 "ok")
+    | none => (s, "bad-op")
+  | ["xl", "apply", d] =>
+    match Dyadic.parseNat d with
+    | some k =>
+      if k ≥ 3 then (s, "bad-op") else
+      let vals := s.xdata.getD k []
+      match arrayApply s.xarr vals (s.xrange.getD k none) with
+      | none => (s, xdump s "refused")
+      | some ps =>
+        let xlen := if s.xarr.isEmpty then vals.length else s.xlen
+        let s1 := { s with xarr := ps, xdims := if s.xdims.contains k then s.xdims else k :: s.xdims, xlen := xlen }
+        (s1, xdump s1 "ok")
+    | none => (s, "bad-op")
+  | ["xl", "dump"] => (s, xdump s "ok")
+  | ["xl", "poly"] =>
+    let ps := polyParts s.xarr 0
+    let txt := if ps.isEmpty then "-" else ",".intercalate (ps.map fun (a, b, c, d) => s!"{a}+{b}/{c}+{d}")
+    -- spec: the points of a part are its drawn points without an out-of-range first / last point
+    (s, s!"R spans={txt} | C - | I - | S spans={txt} ; *")
+  | _ => (s, "bad-op")
+
 def step (s : St) (w : List String) : St × String :=
+  if w.head? = some "xl" then xstep s w else
   match w with
   | ["l", "range", "null"] => ({ s with range := none }, "R ok | C - | I -")
   | ["l", "range", a, b] =>
